@@ -572,6 +572,36 @@ pub fn miri_c16(seed: u64, n: u64) {
                 });
             }
         });
+        // cold start: a fresh load whose very first use is one accessor called by two threads at
+        // once (lazily initialised state is only exposed in this window)
+        for first in [Op::FrameImage(0), Op::TileImage(0, 1), Op::TilesetImage(0)] {
+            let want_a = exec_out(&f_ref, &first, &costs);
+            let second = if matches!(first, Op::FrameImage(_)) { Op::TileImage(0, 0) } else { Op::FrameImage(0) };
+            let want_b = exec_out(&f_ref, &second, &costs);
+            if want_a == Out::Skipped && want_b == Out::Skipped {
+                continue;
+            }
+            let fresh = AsepriteFile::read(&bytes[..]).expect("tiny sprite must load");
+            let (freshr, firstr, secondr, war, wbr) = (&fresh, &first, &second, &want_a, &want_b);
+            std::thread::scope(|s| {
+                for k in 0..2u32 {
+                    s.spawn(move || {
+                        let (op, want) = if k == 0 { (firstr, war) } else { (secondr, wbr) };
+                        let o = exec_out(freshr, op, costsr);
+                        assert!(
+                            o == *want,
+                            "C16 violation under Miri: concurrent first use, thread {} op {:?}: sequential {} concurrent {} (VERIF_SEED={} case={})",
+                            k,
+                            op,
+                            want.show(),
+                            o.show(),
+                            seed,
+                            i
+                        );
+                    });
+                }
+            });
+        }
         // ping-pong: each thread renders "its" frame over and over while the others render
         // different ones — the access pattern under which a shared render cache goes wrong
         if nf >= 2 {
@@ -719,6 +749,66 @@ pub fn stress_c16(ctx: &crate::props::Ctx, i: u64, threads: usize, iters: usize)
         Err(_) => return None,
     };
     let memo: Vec<Out> = ops.iter().map(|op| exec_out(&f_ref, op, &costs)).collect();
+    // Cold-start volleys: for each kind of accessor a *fresh* load whose very first use is that
+    // accessor, called by all threads at the same instant. Lazily initialised state (caches filled
+    // on first use) is only ever exposed in this window.
+    {
+        let volley_ops: Vec<usize> = {
+            let mut seen = std::collections::BTreeSet::new();
+            let mut v = Vec::new();
+            for (i, op) in ops.iter().enumerate() {
+                if op.is_render() || matches!(op, Op::Palette | Op::Tilesets | Op::TilemapSweep(..)) {
+                    if seen.insert(op.name()) {
+                        v.push(i);
+                    }
+                }
+            }
+            v
+        };
+        let rounds = (iters / 16).clamp(1, 40);
+        for _ in 0..rounds {
+            for &oi in &volley_ops {
+                let fresh = match catch_unwind(AssertUnwindSafe(|| load(&base.bytes, Wrapper::Slice, &ReaderPlan::default(), None, false, false).0)) {
+                    Ok(l) => match l.result {
+                        Ok(f) => f,
+                        Err(_) => return None,
+                    },
+                    Err(_) => return None,
+                };
+                let gate = std::sync::Barrier::new(threads);
+                let hit: Mutex<Option<String>> = Mutex::new(None);
+                std::thread::scope(|s| {
+                    for k in 0..threads {
+                        let (fr, opsr, memor, costsr, gate, hit, descr) = (&fresh, &ops, &memo, &costs, &gate, &hit, &base.desc);
+                        s.spawn(move || {
+                            // half of the threads take the neighbouring op, so that two different
+                            // first uses overlap as well
+                            let idx = if k % 2 == 0 { oi } else { volley_pair(opsr, oi) };
+                            gate.wait();
+                            let o = exec_out(fr, &opsr[idx], costsr);
+                            if o != memor[idx] {
+                                let mut g = hit.lock().unwrap();
+                                if g.is_none() {
+                                    *g = Some(format!(
+                                        "run {} cold-start volley, thread {} op {:?}: sequential {} ; concurrent first use {} ; base {}",
+                                        i,
+                                        k,
+                                        opsr[idx],
+                                        memor[idx].show(),
+                                        o.show(),
+                                        descr
+                                    ));
+                                }
+                            }
+                        });
+                    }
+                });
+                if let Some(m) = hit.into_inner().unwrap() {
+                    return Some(m);
+                }
+            }
+        }
+    }
     let bad: Mutex<Option<String>> = Mutex::new(None);
     let stop = std::sync::atomic::AtomicBool::new(false);
     let gate = std::sync::Barrier::new(threads);
@@ -935,4 +1025,15 @@ fn sibling_phase(plan: &Plan, image: &[u8], rp: &ReaderPlan, facts: &mut Facts) 
         drop(x_keep);
     }
     None
+}
+
+/// Another render op to pair with op `oi` in a volley (the next render op in the list, cyclically).
+fn volley_pair(ops: &[Op], oi: usize) -> usize {
+    for d in 1..ops.len() {
+        let j = (oi + d) % ops.len();
+        if ops[j].is_render() && ops[j].name() != ops[oi].name() {
+            return j;
+        }
+    }
+    oi
 }
